@@ -28,3 +28,29 @@ Print Assumptions C06_non_literal_never_by_source.
 Theorem C06_long_never_by_source : forall a, (repr_len a > MAXIMUM_TEMPORARY_LENGTH)%nat -> marshal a <> BySource.
 Proof. exact long_never_by_source. Qed.
 Print Assumptions C06_long_never_by_source.
+
+(* where a failure is located (model/C06_Location.v, tied on real tracebacks on every run): the same source line as a plain
+   interpreter's traceback shows for the learner's file *)
+From Pedal Require Import model.C06_Location proof.C06_Location_Lemmas.
+
+Theorem C06_location_is_the_innermost_student_frame :
+  forall student offset pre f post,
+    student (fst f) = true -> (forall g, In g post -> student (fst g) = false) ->
+    location student offset None (pre ++ f :: post)%list = Some (snd f + offset (fst f)).
+Proof. exact location_is_the_innermost_student_frame. Qed.
+Print Assumptions C06_location_is_the_innermost_student_frame.
+
+Theorem C06_location_is_a_student_line_when_student_code_is_on_the_stack :
+  forall student offset frames,
+    (exists f, In f frames /\ student (fst f) = true) ->
+    exists f, In f frames /\ student (fst f) = true /\ location student offset None frames = Some (snd f + offset (fst f)).
+Proof. exact location_is_a_student_line_when_student_code_is_on_the_stack. Qed.
+Print Assumptions C06_location_is_a_student_line_when_student_code_is_on_the_stack.
+
+Theorem C06_innermost_frame_of_any_file_refuted :
+  exists frames, (exists f, In f frames /\ fst f = 0) /\
+                 location_before (fun _ => 0) frames = Some 347 /\
+                 location (fun file => Nat.eqb file 0) (fun _ => 0) None frames = Some 3.
+Proof. exact innermost_frame_of_any_file_refuted. Qed.
+Print Assumptions C06_innermost_frame_of_any_file_refuted.
+
